@@ -55,19 +55,21 @@ static void vexit(int code)
 LongWord in_start, in_stop, in_relocate;
 unsigned char in_linelen, in_reladr, in_minmoto, in_rec5, in_sepmoto, in_motooccured;
 
-/* ---- online decoder ---- */
-#define LBMAX 16
-static unsigned char lb[LBMAX]; static int lbn, nib_phase, nib_hi, in_line, stderr_msgs, syntax_err;
+/* ---- online decoder: scalar state machine, one call per output byte (no line buffer) ---- */
+static int idx, inside_line, nib_phase, nib_hi, stderr_msgs, syntax_err, expect_moto_type;
+static unsigned lsum, f_len, f_type, f_alen;
+static unsigned long long f_addr, f_ext;
 static char line_kind, moto_type;
 static unsigned long long base_addr;            /* Intel extended address base */
 static long long next_addr = -1;                 /* address expected for the next data byte (contiguity) */
 static unsigned long data_bytes, data_lines, s5_count; static int s5_seen;
 static unsigned long long exp_first, exp_last; static int exp_any;   /* clipped, relocated address range expected */
+static unsigned mos_c1, mos_c2;
 
 static unsigned char src_byte(unsigned long long hexaddr)
 {
   /* hex address -> source address: undo relocation and relative addressing */
-  unsigned long long a = hexaddr - (unsigned long long)(long long)(LargeInt)(LongInt)in_relocate + (in_reladr ? in_start : 0);
+  unsigned long long a = hexaddr - (unsigned long long)(long long)(LongInt)in_relocate + (in_reladr ? in_start : 0);
   return in_rdata[(a - in_rstart[0]) & 7];
 }
 
@@ -81,84 +83,118 @@ static void data_byte(unsigned long long hexaddr, unsigned char v)
   data_bytes++;
 }
 
-static void end_line(void)
+static void byte_in(unsigned v)
 {
-  int k; unsigned sum = 0;
-  CHECK(!nib_phase, "a line holds whole bytes");
+  CHECK(inside_line, "hex digits only inside a record");
   if (line_kind == ':')
   {
-    CHECK(lbn >= 5 && lbn == lb[0] + 5, "Intel: byte count field = number of data bytes");
-    for (k = 0; k < lbn; k++) sum += lb[k];
-    CHECK((sum & 0xff) == 0, "Intel: two's complement checksum");
-    if (lbn >= 5)
+    if (idx == 0) f_len = v;
+    else if (idx == 1) f_addr = (unsigned long long)v << 8;
+    else if (idx == 2) f_addr |= v;
+    else if (idx == 3) { f_type = v; f_ext = 0; }
+    else if (idx < 4 + (int)f_len)
     {
-      unsigned addr = ((unsigned)lb[1] << 8) | lb[2];
-      if (lb[3] == 0) { for (k = 0; k < lb[0] && 4 + k < lbn - 1; k++) data_byte(base_addr + addr + k, lb[4 + k]); data_lines++; }
-      else if (lb[3] == 4) { CHECK(lb[0] == 2 && addr == 0, "Intel: extended linear address record"); base_addr = ((unsigned long long)lb[4] << 24) | ((unsigned long long)lb[5] << 16); WITNESS("extended linear address record"); }
-      else if (lb[3] == 2) { CHECK(lb[0] == 2 && addr == 0, "Intel: extended segment address record"); base_addr = (((unsigned long long)lb[4] << 8) | lb[5]) << 4; }
-      else CHECK(0, "Intel: only record types 00/02/04 in the data part");
+      if (f_type == 0) data_byte(base_addr + f_addr + (unsigned)(idx - 4), (unsigned char)v);
+      else f_ext = (f_ext << 8) | v;
     }
+    lsum += v;
   }
   else if (line_kind == 'S')
   {
-    int alen = (moto_type == '1' || moto_type == '0' || moto_type == '5' || moto_type == '9') ? 2 : (moto_type == '2' || moto_type == '8') ? 3 : 4;
-    CHECK(lbn >= 1 && lb[0] == lbn - 1, "Motorola: count field = bytes that follow");
-    for (k = 0; k < lbn; k++) sum += lb[k];
-    CHECK((sum & 0xff) == 0xff, "Motorola: one's complement checksum");
-    if (moto_type >= '1' && moto_type <= '3')
-    {
-      unsigned long long addr = 0;
-      for (k = 0; k < alen; k++) addr = (addr << 8) | lb[1 + k];
-      for (k = 1 + alen; k < lbn - 1; k++) data_byte(addr + (k - 1 - alen), lb[k]);
-      data_lines++;
+    if (idx == 0) { f_len = v; f_addr = 0; f_alen = (moto_type == '2' || moto_type == '8') ? 3 : (moto_type == '3' || moto_type == '7') ? 4 : 2; }
+    else if (idx <= (int)f_alen) f_addr = (f_addr << 8) | v;
+    else if (idx < (int)f_len && moto_type >= '1' && moto_type <= '3') data_byte(f_addr + (unsigned)(idx - 1 - (int)f_alen), (unsigned char)v);
+    lsum += v;
+  }
+  else if (line_kind == ';')
+  {
+    if (idx == 0) f_len = v;
+    else if (idx == 1) f_addr = (unsigned long long)v << 8;
+    else if (idx == 2) f_addr |= v;
+    else if (idx < 3 + (int)f_len) data_byte(f_addr + (unsigned)(idx - 3), (unsigned char)v);
+    else if (idx == 3 + (int)f_len) mos_c1 = v;
+    else mos_c2 = v;
+    if (idx < 3 + (int)f_len) lsum += v;
+  }
+  else CHECK(0, "line start character");
+  idx++;
+}
+
+static void end_line(void)
+{
+  CHECK(!nib_phase, "a line holds whole bytes");
+  if (line_kind == ':')
+  {
+    CHECK(idx == (int)f_len + 5, "Intel: byte count field = number of data bytes");
+    CHECK((lsum & 0xff) == 0, "Intel: two's complement checksum");
+    if (f_type == 0) data_lines++;
+    else if (f_type == 4) { CHECK(f_len == 2 && f_addr == 0, "Intel: extended linear address record"); base_addr = f_ext << 16;
+#if FMTN == 4
+      WITNESS("extended linear address record");
+#endif
     }
-    else if (moto_type == '5') { s5_seen = 1; s5_count = ((unsigned)lb[1] << 8) | lb[2]; }
+    else if (f_type == 2) { CHECK(f_len == 2 && f_addr == 0, "Intel: extended segment address record"); base_addr = f_ext << 4; }
+    else CHECK(0, "Intel: only record types 00/02/04 in the data part");
+  }
+  else if (line_kind == 'S')
+  {
+    CHECK(idx == (int)f_len + 1, "Motorola: count field = bytes that follow");
+    CHECK((lsum & 0xff) == 0xff, "Motorola: one's complement checksum");
+    if (moto_type >= '1' && moto_type <= '3') data_lines++;
+    else if (moto_type == '5') { s5_seen = 1; s5_count = (unsigned long)f_addr; }
     else if (moto_type == '0') { }
-    else if (moto_type >= '7' && moto_type <= '9') { WITNESS("separate terminator"); }
+    else if (moto_type >= '7' && moto_type <= '9') {
+#if FMTN == 1
+      WITNESS("separate terminator");
+#endif
+    }
     else CHECK(0, "Motorola: record type");
   }
   else if (line_kind == ';')
   {
-    unsigned addr, cks;
-    CHECK(lbn >= 5 && lbn == lb[0] + 5, "MOS: byte count field = number of data bytes");
-    for (k = 0; k < lbn - 2; k++) sum += lb[k];
-    addr = ((unsigned)lb[1] << 8) | lb[2];
-    cks = ((unsigned)lb[lbn - 2] << 8) | lb[lbn - 1];
-    CHECK(cks == (sum & 0xffff), "MOS: 16-bit checksum of this line (count + address + data)");
-    for (k = 0; k < lb[0] && 3 + k < lbn - 2; k++) data_byte(addr + k, lb[3 + k]);
+    CHECK(idx == (int)f_len + 5, "MOS: byte count field = number of data bytes");
+    CHECK(((mos_c1 << 8) | mos_c2) == (lsum & 0xffff), "MOS: 16-bit checksum of this line (count + address + data)");
     data_lines++;
   }
-  else CHECK(0, "line start character");
-  in_line = 0; lbn = 0;
+  inside_line = 0; idx = 0; lsum = 0;
 }
 
 static void nibble(unsigned v)
 {
-  CHECK(in_line, "hex digits only inside a record");
-  if (!nib_phase) { nib_hi = v; nib_phase = 1; }
-  else { if (lbn < LBMAX) lb[lbn] = (unsigned char)((nib_hi << 4) | v); else syntax_err++; lbn++; nib_phase = 0; }
+  if (!nib_phase) { nib_hi = v; nib_phase = 1; } else { nib_phase = 0; byte_in((nib_hi << 4) | v); }
 }
-static int expect_moto_type;
 static void ch(char c)
 {
   if (expect_moto_type) { moto_type = c; expect_moto_type = 0; return; }
   if (c == '\n') { end_line(); return; }
   if (c >= '0' && c <= '9') { nibble(c - '0'); return; }
   if (c >= 'A' && c <= 'F') { nibble(c - 'A' + 10); return; }
-  CHECK(!in_line, "record start only at the beginning of a line");
-  in_line = 1; line_kind = c; lbn = 0; nib_phase = 0;
+  CHECK(!inside_line, "record start only at the beginning of a line");
+  inside_line = 1; line_kind = c; idx = 0; lsum = 0; nib_phase = 0;
   if (c == 'S') expect_moto_type = 1;
 }
-static void vp_lit(FILE* f, char c) { if (f == stderr) { stderr_msgs++; return; } if (f == (FILE*)(void*)&targ) ch(c); }
+static void vp_lit(FILE* f, char c)
+{
+#ifdef NO_DECODE
+  (void)f; (void)c; return;
+#endif
+  if (f == stderr) { stderr_msgs++; return; }
+  if (f == (FILE*)(void*)&targ) ch(c);
+}
 static void vp_num(FILE* f, char conv, int width, int zeropad, int longmod, unsigned long long val)
 {
-  int k;
   (void)zeropad; (void)longmod;
+#ifdef NO_DECODE
+  return;
+#endif
   if (f != (FILE*)(void*)&targ) return;
   if (conv == 'c') { ch((char)val); return; }
-  CHECK(conv == 'X' && width >= 1 && width <= 8, "numeric fields of the record formats are fixed-width upper-case hex");
+  CHECK(conv == 'X' && (width == 2 || width == 4 || width == 8), "numeric fields of the record formats are fixed-width upper-case hex bytes");
+  CHECK(!nib_phase, "fields start on a byte boundary");
   CHECK(width >= 8 || val < (1ull << (4 * width)), "value fits its field");
-  for (k = width - 1; k >= 0; k--) { unsigned n = (unsigned)((val >> (4 * k)) & 15); ch((char)(n < 10 ? '0' + n : 'A' + n - 10)); }
+  if (width == 8) { byte_in((unsigned)(val >> 24) & 0xff); byte_in((unsigned)(val >> 16) & 0xff); }
+  if (width >= 4) byte_in((unsigned)(val >> 8) & 0xff);
+  byte_in((unsigned)val & 0xff);
 }
 static void vp_str(FILE* f, const char* s, int width, int leftalign) { (void)f; (void)s; (void)width; (void)leftalign; }
 
@@ -182,7 +218,7 @@ void harness(void)
   DestFormat = FMT; FormatOccured = in_motooccured ? eMotoOccured : 0; MaxMoto = 0; MaxIntel = 0; EntryAdrPresent = False;
   QuietMode = True; DoFilter = False; CFormat[0] = 0; strcpy(TargName, "t");
   /* stated bounds: addresses inside the format's address space, no wrap-around in relocation */
-#if FMT == eHexFormatIntel || FMT == eHexFormatMOS
+#if FMTN == 2 || FMTN == 5
   ASSUME(in_rstart[0] <= 0xfff0u && (LongInt)in_relocate >= -0x1000 && (LongInt)in_relocate <= 0x1000);
 #else
   ASSUME(in_rstart[0] <= 0x7ffffff0u && (LongInt)in_relocate >= -0x10000 && (LongInt)in_relocate <= 0x10000);
@@ -195,9 +231,9 @@ void harness(void)
   {
     long long off = (long long)(LongInt)in_relocate - (in_reladr ? (long long)in_start : 0);
     ASSUME((long long)s + off >= 0);
-#if FMT == eHexFormatIntel || FMT == eHexFormatMOS
+#if FMTN == 2 || FMTN == 5
     ASSUME((long long)e + off <= 0xffff);
-#elif FMT == eHexFormatIntel16
+#elif FMTN == 3
     ASSUME((long long)e + off <= 0xfffff);
 #else
     ASSUME((long long)e + off <= 0x7fffffffll);
@@ -208,9 +244,13 @@ void harness(void)
   ProcessFile(srcname, 0);
 
   CHECK(vp_unmodelled == 0 && syntax_err == 0, "output is made of well-formed records");
-  CHECK(!in_line, "the last record is terminated by a newline");
+  CHECK(!inside_line, "the last record is terminated by a newline");
   CHECK(data_bytes == (exp_any ? (unsigned long)(e - s + 1) : 0), "every selected byte is emitted exactly once, nothing else");
-  if (s5_seen) { CHECK(s5_count == data_lines, "Motorola S5: count of data records"); WITNESS("S5 record"); }
+  if (s5_seen) { CHECK(s5_count == data_lines, "Motorola S5: count of data records");
+#if FMTN == 1
+    WITNESS("S5 record");
+#endif
+  }
   if (exp_any && data_lines >= 2) WITNESS("more than one data line");
   if (!exp_any) WITNESS("record clipped away");
   WITNESS("end");
